@@ -46,7 +46,7 @@ GENERAL_SCALARS = [0.1, -0.3, 1.0 / 3, 2.5, -1.7, 0.7]
 
 def EXPECTED_BRANCHES(ctx=None):
     return (fc.history_expected_branches() + fc.wide_expected_branches('C09') +
-            fc.forms_expected_branches() +
+            fc.forms_expected_branches() + LEAVES_BRANCHES +
             ['lipschitz/nested/{}/{}'.format(k, f) for k in NESTED_KINDS for f, _ in NESTED_FACTORS])
 
 # --------------------------------------------------------------------------
@@ -498,7 +498,10 @@ def compare(ctx, pend, outs):
         d2['op'] = op
         ctx.hit('model/' + op)
         if ans == 'bad-op':
-            ctx.disagree(d2, impl, 'bad-op (driver rejected the expression)')
+            ctx.disagree(d2, impl if not isinstance(impl, (list, tuple)) else str(impl)[:200],
+                         'bad-op (driver rejected the expression)')
+            continue
+        if compare_leaves(ctx, op, d2, impl, ans, stream):
             continue
         if op == 'lip':
             m = lip_number(ans)
@@ -543,6 +546,434 @@ def compare(ctx, pend, outs):
                 ok = all(close(a, float(b), sc, 1e-9, 1e-9) for a, b in zip(impl, mv))
             if not ok:
                 ctx.disagree(d2, impl[:8], ans[:300])
+
+
+
+# --------------------------------------------------------------------------
+# ROUND 4: leaves outside the expression language (Model/FunctionalsLeaves.lean):
+# KullbackLeibler / KullbackLeiblerConvexConj gradients, IndicatorBox / IndicatorNonnegativity
+# values, SeparableSum value / gradient / derivative on product spaces.
+
+LEAVES_BRANCHES = (
+    ['leaves/{}/{}'.format(k, b) for k in ('kl', 'klcc')
+     for b in ('interior', 'outside-domain', 'div-by-zero', 'prior-none', 'prior-vector',
+               'exact', 'general', 'fd-ok')] +
+    ['leaves/box/' + b for b in ('inside', 'outside', 'on-boundary', 'scalar-bounds',
+                                 'element-bounds', 'one-sided', 'no-bounds', 'nonnegativity',
+                                 'inverted-bounds', 'no-gradient', 'pspace')] +
+    ['leaves/sepsum/' + b for b in ('value', 'gradient', 'derivative', 'power-space',
+                                    'mixed-weights', 'fd-ok')])
+
+KL_X = {'kl': [0.25, 0.5, 1.0, 2.0, 4.0, 8.0],
+        'klcc': [0.75, 0.5, 0.0, -1.0, -3.0, -7.0]}       # 1 - x a power of two
+KL_X_OUT = {'kl': [-0.25, -0.5, -1.0, -2.0, -4.0], 'klcc': [1.25, 1.5, 2.0, 3.0, 5.0]}
+KL_X_SING = {'kl': 0.0, 'klcc': 1.0}
+
+
+def _kl_build(kind, S, prior):
+    import odl.solvers as sol
+    pr = None if prior is None else S.elem(prior)
+    base = sol.KullbackLeibler(S.space, pr)
+    return base if kind == 'kl' else base.convex_conj
+
+
+def _kl_doc_grad(kind, g, xs):
+    """Documented gradient (docstrings): 1 - g/x resp. g/(1 - x), exact rationals."""
+    out = []
+    for gi, xi in zip(g, xs):
+        gi, xi = core.frac(gi), core.frac(xi)
+        out.append(1 - gi / xi if kind == 'kl' else gi / (1 - xi))
+    return out
+
+
+def kl_case(ctx, kind, S, prior, xs, ds, stream, lines, pend):
+    desc = {'leaves': 'kl', 'kind': kind, 'space': S.name, 'prior': prior, 'x': xs, 'd': ds,
+            'stream': stream}
+    key = 'leaves {} space={}({}) prior={}'.format(kind, S.name, S.kind,
+                                                   'none' if prior is None else 'vector')
+    st, f = safe_call(_kl_build, kind, S, prior)
+    if st != 'ok':
+        ctx.violation('construct ' + key, 'constructing raised ' + st, desc)
+        return
+    # the prior is read from the LIVE object
+    st, g = safe_call(lambda: [1.0] * S.size if f.prior is None else S.flat(f.prior))
+    if st != 'ok':
+        ctx.violation('serialise ' + key, 'reading prior raised ' + st, desc)
+        return
+    ctx.hit('leaves/{}/prior-{}'.format(kind, 'none' if f.prior is None else 'vector'))
+    ctx.hit('leaves/{}/{}'.format(kind, stream))
+    x, d = S.elem(xs), S.elem(ds)
+    sing = KL_X_SING[kind]
+    in_dom = all((t > 0) if kind == 'kl' else (t < 1) for t in xs)
+    has_sing = any(t == sing for t in xs)
+    # ---- value: inf exactly outside the documented domain (oracle), model `kldom`
+    st, v = safe_call(lambda: float(f(x)))
+    if st != 'ok':
+        ctx.violation('value-raises:{} {}'.format(st.split(':')[1], key), 'f(x) raised ' + st, desc)
+        return
+    if (v == float('inf')) != (not in_dom):
+        ctx.violation('value ' + key, 'f(x) = {!r} but x is {} the documented domain'.format(
+            v, 'inside' if in_dom else 'outside'), desc)
+    lines.append('kldom kind={} x={}'.format(kind, fl(xs)))
+    pend.append(('kldom', desc, 1 if v == float('inf') else 0, S, (kind,), stream))
+    # ---- gradient
+    st, gr = safe_call(lambda: S.flat(f.gradient(x)))
+    if st != 'ok':
+        ctx.violation('gradient-raises:{} {}'.format(st.split(':')[1], key),
+                      'f.gradient(x) raised ' + st, desc)
+        return
+    finite = all(math.isfinite(t) for t in gr)
+    if finite == has_sing:
+        ctx.violation('gradient ' + key, 'gradient(x) finite={} but x {} an entry at the '
+                      'singularity'.format(finite, 'has' if has_sing else 'has not'), desc)
+    lines.append('klgrad kind={} g={} x={}'.format(kind, fl(g), fl(xs)))
+    pend.append(('klgrad', desc, gr if finite else 'nonfinite', S, (kind,), stream))
+    ctx.hit('leaves/{}/{}'.format(kind, 'div-by-zero' if has_sing else
+                                  ('interior' if in_dom else 'outside-domain')))
+    ctx.case(('leaf', kind, S.kind, prior is None, in_dom), sample=desc if len(ctx.samples) < 10 else None)
+    if not finite:
+        return
+    # oracle 1: the documented formula
+    dg = _kl_doc_grad(kind, g if prior is None else prior, xs)
+    if not all(close(a, float(b), max(1.0, abs(a)), 1e-12, 1e-12) for a, b in zip(gr, dg)):
+        ctx.violation('gradient ' + key, 'gradient(x) = {!r} but the documented formula gives '
+                      '{!r}'.format(gr[:6], [float(t) for t in dg[:6]]), desc)
+    # oracle 2: finite differences of the real values, derivative(x)(d)
+    if in_dom:
+        gd = float(f.gradient(x).inner(d))
+        st, dd = safe_call(lambda: float(f.derivative(x)(d)))
+        if st != 'ok' or not close(dd, gd, 1.0, 1e-12, 1e-12):
+            ctx.violation('derivative ' + key, 'derivative(x)(d) = {!r} but <gradient(x), d> = '
+                          '{!r}'.format(dd if st == 'ok' else st, gd), desc)
+        fst, D = fd_oracle(f, S, xs, ds)
+        if fst == 'ok':
+            ctx.hit('leaves/{}/fd-ok'.format(kind))
+            if abs(D - gd) > 2e-6 * max(1.0, abs(D), abs(gd)):
+                ctx.violation('gradient ' + key, '<gradient(x), d> = {!r} but central differences '
+                              'of the values give {!r}'.format(gd, D), desc)
+
+
+def _bounds_list(b, S):
+    """Per-entry bound list of a live `lower`/`upper` attribute (None | scalar | element)."""
+    if b is None:
+        return [None] * S.size
+    if np.isscalar(b):
+        return [float(b)] * S.size
+    return S.flat(S.space.element(b))
+
+
+def _wopt(bs):
+    return ','.join('n' if b is None else fs(b) for b in bs)
+
+
+def box_case(ctx, S, lo, hi, xs, lines, pend, nonneg=False, inverted=False):
+    import odl.solvers as sol
+    desc = {'leaves': 'box', 'space': S.name, 'lo': lo, 'hi': hi, 'x': xs, 'nonneg': nonneg}
+    key = 'leaves box space={}({}){}'.format(S.name, S.kind, ' [inverted-bounds]' if inverted else '')
+
+    def mk():
+        if nonneg:
+            return sol.IndicatorNonnegativity(S.space)
+        cv = lambda b: None if b is None else (float(b) if np.isscalar(b) else S.elem(b))  # noqa
+        return sol.IndicatorBox(S.space, cv(lo), cv(hi))
+    st, f = safe_call(mk)
+    if st != 'ok':
+        ctx.violation('construct ' + key, 'constructing raised ' + st, desc)
+        return
+    st, bl = safe_call(lambda: (_bounds_list(f.lower, S), _bounds_list(f.upper, S)))
+    if st != 'ok':
+        ctx.violation('serialise ' + key, 'reading bounds raised ' + st, desc)
+        return
+    los, his = bl
+    x = S.elem(xs)
+    st, v = safe_call(lambda: float(f(x)))
+    if st != 'ok':
+        ctx.violation('value-raises:{} {}'.format(st.split(':')[1], key), 'f(x) raised ' + st, desc)
+        return
+    # oracle: the documented indicator, from the REQUESTED bounds (valid boxes only)
+    rl = [None] * S.size if (lo is None and not nonneg) else ([0.0] * S.size if nonneg else
+                                                               ([float(lo)] * S.size if np.isscalar(lo) else list(lo)))
+    rh = [None] * S.size if (hi is None or nonneg) else ([float(hi)] * S.size if np.isscalar(hi) else list(hi))
+    inside = all((a is None or a <= t) and (b is None or t <= b) for a, b, t in zip(rl, rh, xs))
+    onb = inside and any(t == a or t == b for a, b, t in zip(rl, rh, xs))
+    if not inverted:
+        if v != (0.0 if inside else float('inf')):
+            ctx.violation('value ' + key, 'f(x) = {!r} but x is {} the box'.format(
+                v, 'inside' if inside else 'outside'), desc)
+        ctx.hit('leaves/box/' + ('on-boundary' if onb else 'inside' if inside else 'outside'))
+    else:
+        ctx.hit('leaves/box/inverted-bounds')
+    if nonneg:
+        ctx.hit('leaves/box/nonnegativity')
+    elif lo is None and hi is None:
+        ctx.hit('leaves/box/no-bounds')
+    elif lo is None or hi is None:
+        ctx.hit('leaves/box/one-sided')
+    if not nonneg and any(b is not None and not np.isscalar(b) for b in (lo, hi)):
+        ctx.hit('leaves/box/element-bounds')
+    elif not nonneg and (lo is not None or hi is not None):
+        ctx.hit('leaves/box/scalar-bounds')
+    if S.is_pspace:
+        ctx.hit('leaves/box/pspace')
+    # absent gradient: the class documents none
+    st, _g = safe_call(lambda: f.gradient(x))
+    if 'NotImplementedError' in st:
+        ctx.hit('leaves/box/no-gradient')
+    else:
+        ctx.violation('gradient ' + key, 'IndicatorBox.gradient(x) did not raise '
+                      'NotImplementedError: ' + st, desc)
+    lines.append('box w={} lo={} hi={} x={}'.format(fc.wl(S), _wopt(los), _wopt(his), fl(xs)))
+    pend.append(('box', desc, 'inf' if v == float('inf') else fs(v), S, ('indbox',), 'exact'))
+    ctx.case(('leaf', 'box', S.kind, inside, nonneg, lo is None, hi is None))
+
+
+def sep_case(ctx, S, parts, xs, ds, stream, via_ops, lines, pend, power=None):
+    """SeparableSum of `parts` (recipes, one per factor of the product space S)."""
+    import odl.solvers as sol
+    desc = {'leaves': 'sepsum', 'space': S.name, 'parts': parts, 'x': xs, 'd': ds,
+            'via_ops': via_ops, 'stream': stream, 'power': power}
+    classes = tuple(sorted(set(c for r in parts for c in fc.recipe_classes(r))))
+    key = 'leaves sepsum space={}({}) parts={}'.format(S.name, S.kind, '+'.join(
+        '/'.join(fc.recipe_classes(r)) for r in parts))
+    subs = [fc.SpaceInfo('part', sub, 'part') for sub in S.space]
+
+    def mk():
+        if power is not None:
+            return sol.SeparableSum(fc.build(parts[0], subs[0], via_ops), power)
+        return sol.SeparableSum(*[fc.build(r, Si, via_ops) for r, Si in zip(parts, subs)])
+    st, f = safe_call(mk)
+    if st != 'ok':
+        ctx.violation('construct ' + key, 'constructing raised ' + st, desc)
+        return
+    x, d = S.elem(xs), S.elem(ds)
+    st, v = safe_call(lambda: float(f(x)))
+    if st != 'ok':
+        ctx.violation('value-raises:{} {}'.format(st.split(':')[1], key), 'f(x) raised ' + st, desc)
+        return
+    # oracle: documented value sum_i f_i(x_i), formula on the real leaves
+    st2, dv = safe_call(fc.doc_value, ['sepsum', parts], S, x)
+    if st2 == 'ok' and math.isfinite(dv) and not close(v, dv, 1.0, 1e-9, 1e-9):
+        ctx.violation('value ' + key, 'f(x) = {!r} but sum of the documented part values is '
+                      '{!r}'.format(v, dv), desc)
+    ctx.hit('leaves/sepsum/value')
+    st, g = safe_call(lambda: f.gradient(x))
+    if st != 'ok':
+        ctx.violation('gradient-raises:{} {}'.format(st.split(':')[1], key),
+                      'f.gradient(x) raised ' + st, desc)
+        return
+    gl = S.flat(g)
+    if not all(math.isfinite(t) for t in gl):
+        return
+    # oracle: documented gradient [grad f_i(x_i)]_i on the real parts
+    st3, gparts = safe_call(lambda: [t for fi, xi, Si in zip(f.functionals, x, subs)
+                                     for t in Si.flat(fi.gradient(xi))])
+    if st3 != 'ok' or gparts != gl:
+        ctx.violation('gradient ' + key, 'gradient(x) = {!r} but the parts give {!r}'.format(
+            gl[:8], gparts[:8] if st3 == 'ok' else st3), desc)
+    ctx.hit('leaves/sepsum/gradient')
+    gd = float(g.inner(d))
+    st, dd = safe_call(lambda: float(f.derivative(x)(d)))
+    if st != 'ok' or not close(dd, gd, 1.0, 1e-12, 1e-12):
+        ctx.violation('derivative ' + key, 'derivative(x)(d) = {!r} but <gradient(x), d> = '
+                      '{!r}'.format(dd if st == 'ok' else st, gd), desc)
+        return
+    ctx.hit('leaves/sepsum/derivative')
+    fst, D = fd_oracle(f, S, xs, ds)
+    if fst == 'ok':
+        ctx.hit('leaves/sepsum/fd-ok')
+        if abs(D - gd) > 2e-6 * max(1.0, abs(D), abs(gd)):
+            ctx.violation('gradient ' + key, '<gradient(x), d> = {!r} but central differences of '
+                          'the values give {!r}'.format(gd, D), desc)
+    if power is not None:
+        ctx.hit('leaves/sepsum/power-space')
+    if len(set(S.w)) > 1:
+        ctx.hit('leaves/sepsum/mixed-weights')
+    ctx.case(('leaf', 'sepsum', S.name, classes) if any(t != 0 for t in gl) else None,
+             sample=desc if len(ctx.samples) < 12 else None)
+    # model: every part serialised from the LIVE object
+    try:
+        ws = [fc.wire(fi, Si, need_inverse=False) for fi, Si in zip(f.functionals, subs)]
+    except NoModel as e:
+        ctx.hit('oracle-only:' + str(e)[:40])
+        return
+    except Exception as e:  # noqa
+        ctx.violation('serialise ' + key, 'reading the functional object raised {}: {}'.format(
+            type(e).__name__, e), desc)
+        return
+    if [t for Si in subs for t in Si.w] != list(S.w):
+        ctx.violation('inner-product ' + key, 'the product space inner product is not the sum of '
+                      'the parts\' inner products', desc)
+        return
+    toks, k0 = ['sep k={}'.format(len(subs))], 0
+    for i, (wi, Si) in enumerate(zip(ws, subs)):
+        n = Si.size
+        toks.append('w{0}={1} f{0}={2} x{0}={3} d{0}={4}'.format(
+            i, fl(Si.w), wi, fl(xs[k0:k0 + n]), fl(ds[k0:k0 + n])))
+        k0 += n
+    lines.append(' '.join(toks))
+    pend.append(('sep', desc, (v, gl, dd), S, classes, stream))
+
+
+def leaves_stream(ctx, lines, pend, quick):
+    rng = ctx.rng
+    for S in fc.all_spaces():
+        n = S.size
+        # ---- KL family (documented domain: TensorSpace / DiscretizedSpace)
+        if not S.is_pspace:
+            for kind in ('kl', 'klcc'):
+                for rep in range(6 if quick else 30):
+                    prior = rng.choice([None, [rng.randint(1, 12) / 4.0 for _ in range(n)],
+                                        [rng.choice([0.5, 1.0, 2.0, 1.5, 3.0]) for _ in range(n)]])
+                    exact = rng.random() < 0.6
+                    if exact:
+                        xs = [rng.choice(KL_X[kind]) for _ in range(n)]
+                    elif kind == 'kl':
+                        xs = [rng.randint(1, 40) / 4.0 + rng.choice([0.1, 0.013, 0.3]) for _ in range(n)]
+                    else:
+                        xs = [rng.randint(-40, 3) / 4.0 - rng.choice([0.1, 0.013, 0.3]) for _ in range(n)]
+                    mode = rng.random()
+                    if mode < 0.2:      # one entry outside the domain (value inf, gradient finite)
+                        xs[rng.randrange(n)] = rng.choice(KL_X_OUT[kind])
+                    elif mode < 0.35:   # one entry AT the singularity (division by zero)
+                        xs[rng.randrange(n)] = KL_X_SING[kind]
+                    ds = fc.rvec(rng, n, -4, 4, 2)
+                    kl_case(ctx, kind, S, prior, xs, ds, 'exact' if exact else 'general', lines, pend)
+        # ---- IndicatorBox / IndicatorNonnegativity
+        for rep in range(8 if quick else 40):
+            shape = rng.choice(['scalar', 'scalar', 'elem', 'elem', 'mixed', 'lo-only', 'hi-only',
+                                'none', 'nonneg'])
+            lo = hi = None
+            if shape == 'scalar':
+                lo = rng.choice([-1.0, 0.0, 0.5, -2.5])
+                hi = lo + rng.choice([0.0, 1.0, 2.5, 4.0])
+            elif shape == 'elem':
+                lo = [rng.randint(-8, 4) / 4.0 for _ in range(n)]
+                hi = [a + rng.choice([0.0, 0.25, 1.0, 3.0]) for a in lo]
+            elif shape == 'mixed':
+                lo = -1.0
+                hi = [rng.choice([-1.0, 0.0, 2.0, 0.75]) for _ in range(n)]
+            elif shape == 'lo-only':
+                lo = rng.choice([0.5, [rng.randint(-4, 4) / 4.0 for _ in range(n)]])
+            elif shape == 'hi-only':
+                hi = rng.choice([1.5, [rng.randint(-4, 4) / 4.0 for _ in range(n)]])
+            for _ in range(3):
+                m = rng.random()
+                ll = _b(lo, n, shape == 'nonneg')
+                hh = _b(hi, n, False)
+                if m < 0.45:        # inside (possibly on the boundary)
+                    xs = []
+                    for a, b in zip(ll, hh):
+                        a0 = a if a is not None else (b - 2.0 if b is not None else -2.0)
+                        b0 = b if b is not None else a0 + 2.0
+                        xs.append(rng.choice([a0, b0, (a0 + b0) / 2, a0 + (b0 - a0) / 4]))
+                else:
+                    xs = fc.rvec(rng, n, -12, 12, 4)
+                box_case(ctx, S, lo, hi, xs, lines, pend, nonneg=(shape == 'nonneg'))
+        # inverted element bounds: outside the documented precondition; model vs code only
+        lo = [2.0] * n
+        hi = [1.0] * n
+        for xs in ([1.0] * n, [2.0] * n, [1.5] * n):
+            box_case(ctx, S, lo, hi, xs, lines, pend, inverted=True)
+        # ---- SeparableSum on product spaces
+        if S.is_pspace:
+            subs = [fc.SpaceInfo('part', sub, 'part') for sub in S.space]
+            for rep in range(10 if quick else 60):
+                exact = rng.random() < 0.7
+                power = None
+                if S.space.is_power_space and rng.random() < 0.3:
+                    r0 = gen_recipe(rng, subs[0], rng.randint(0, 2), exact, False)
+                    parts, power = [r0] * len(subs), len(subs)
+                else:
+                    parts = [gen_recipe(rng, Si, rng.randint(0, 2), exact, False) for Si in subs]
+                xs = gen_point(rng, S, None, rng.choice([4, 2, 1]))
+                if not exact:
+                    xs = [t + rng.choice([0.1, -0.07, 0.013]) for t in xs]
+                ds = fc.rvec(rng, n, -4, 4, 2)
+                sep_case(ctx, S, parts, xs, ds, 'exact' if exact else 'general',
+                         rng.random() < 0.7, lines, pend, power)
+
+
+def _b(b, n, nonneg):
+    if nonneg:
+        return [0.0] * n
+    if b is None:
+        return [None] * n
+    return [float(b)] * n if np.isscalar(b) else list(b)
+
+
+def compare_leaves(ctx, op, d2, impl, ans, stream):
+    """Model comparison of the round-4 ops. Returns True if handled."""
+    if op == 'kldom':
+        if ans != 'ok inf={}'.format(impl):
+            ctx.disagree(d2, impl, ans)
+        return True
+    if op == 'box':
+        if ans != 'ok v={}'.format(impl):
+            ctx.disagree(d2, impl, ans)
+        return True
+    if op == 'klgrad':
+        if impl == 'nonfinite' or ans == 'nonfinite':
+            if impl != ans:
+                ctx.disagree(d2, impl if isinstance(impl, str) else impl[:8], ans)
+            return True
+        if not ans.startswith('ok g='):
+            ctx.disagree(d2, impl[:8], ans)
+            return True
+        mv = core.pfl(ans[len('ok g='):])
+        if stream == 'exact':
+            ok = len(mv) == len(impl) and all(Fraction(a) == b for a, b in zip(impl, mv))
+        else:
+            ok = len(mv) == len(impl) and all(close(a, float(b), max(1.0, abs(a)), 1e-9, 1e-9)
+                                              for a, b in zip(impl, mv))
+        if not ok:
+            ctx.disagree(d2, impl[:8], ans[:300])
+        return True
+    if op == 'sep':
+        v, gl, dd = impl
+        kv = dict(t.split('=', 1) for t in ans.split()[1:]) if ans.startswith('ok ') else {}
+        try:
+            if kv.get('g') in (None, 'nograd') or kv.get('v') in (None, 'noeval'):
+                raise ValueError
+            mval = float('inf') if kv['v'] == 'inf' else core.pfrac(kv['v'])
+            mg = core.pfl(kv['g'])
+            md = core.pfrac(kv['dv'])
+            if stream == 'exact':
+                ok = (Fraction(v) == mval if math.isfinite(v) else mval == v) and \
+                    len(mg) == len(gl) and all(Fraction(a) == b for a, b in zip(gl, mg)) and \
+                    Fraction(dd) == md
+            else:
+                sc = max([1.0] + [abs(a) for a in gl])
+                ok = close(v, float(mval), 1.0, 1e-9, 1e-9) and len(mg) == len(gl) and \
+                    all(close(a, float(b), sc, 1e-9, 1e-9) for a, b in zip(gl, mg)) and \
+                    close(dd, float(md), sc, 1e-9, 1e-9)
+        except (ValueError, KeyError, OverflowError):
+            ok = False
+        if not ok:
+            ctx.disagree(d2, [v, gl[:8], dd], ans[:300])
+        return True
+    return False
+
+
+def leaves_replay(ctx, case):
+    """Re-run the oracles of one recorded round-4 case on the real code."""
+    class _C(object):       # minimal recording context
+        def __init__(self, rng):
+            self.rng, self.msgs, self.samples = rng, [], []
+        def hit(self, *a, **k): pass       # noqa
+        def case(self, *a, **k): pass      # noqa
+        def err(self, *a, **k): pass       # noqa
+        def violation(self, key, what, case=None):
+            self.msgs.append(key + ': ' + what)
+    c = _C(ctx.rng)
+    S = fc.get_space(case['space'])
+    if case['leaves'] == 'kl':
+        kl_case(c, case['kind'], S, case['prior'], case['x'], case['d'], case['stream'], [], [])
+    elif case['leaves'] == 'box':
+        box_case(c, S, case['lo'], case['hi'], case['x'], [], [], nonneg=case.get('nonneg', False))
+    elif case['leaves'] == 'sepsum':
+        sep_case(c, S, case['parts'], case['x'], case['d'], case['stream'], case['via_ops'], [], [],
+                 case.get('power'))
+    return '; '.join(c.msgs) or None
 
 
 # --------------------------------------------------------------------------
@@ -632,6 +1063,7 @@ def run(ctx, deep=False):
     fc.history_stream(ctx, 'C09', 12 if quick else 60)
     fc.wide_stream(ctx, 'C09', 2 if quick else 8)
     fc.forms_stream(ctx, 'C09')
+    leaves_stream(ctx, lines, pend, quick)
     outs = core.run_driver('C09', lines)
     compare(ctx, pend, outs)
     ctx.extra['model_lines'] = len(lines)
@@ -643,6 +1075,9 @@ def search(ctx, broken):
     rng = ctx.rng
     spaces = fc.all_spaces()
     lines, pend = [], []
+    leaves_stream(ctx, [], [], False)       # round-4 leaves: oracles only, thorough amount
+    if ctx.violations:
+        return
     for S in spaces:
         for r in class_zoo(rng, S):
             check_tree(ctx, r, S, 'general', True, lines, pend, n_pts=4, oracle_only=True)
@@ -662,6 +1097,8 @@ def replay(ctx, case):
         return fc.wide_replay(case)
     if case.get('forms'):
         return fc.forms_replay(ctx, case)
+    if case.get('leaves'):
+        return leaves_replay(ctx, case)
     """Re-run the oracle on one recorded case; returns a description if it still fails."""
     S = fc.get_space(case['space'])
     r = case['recipe']
